@@ -280,6 +280,11 @@ def pole_strategy(draw, allow_axes=True, allow_orient=True, kinds=("lorentz", "d
         elif axes_ok and draw(st.integers(0, 2)) == 0:
             p = {"kind": kind, "qdt": [draw(q_strategy(dom)) for _ in AX],
                  "rdt": [draw(cplx(dom.res_re, dom.res_im)) for _ in AX]}
+        elif draw(st.integers(0, 5)) == 0:
+            # a pole with exactly zero static coupling K = -2 Re(r conj(q)) but a non-zero dE/dt coupling b = 2 Re(r):
+            # r = (Im q) - i (Re q) makes the two products of K cancel exactly in floating point
+            q = draw(q_strategy(dom))
+            p = {"kind": kind, "qdt": q, "rdt": {"re": q["im"], "im": -q["re"]}}
         else:
             p = {"kind": kind, "qdt": draw(q_strategy(dom)), "rdt": draw(cplx(dom.res_re, dom.res_im))}
     else:
